@@ -53,8 +53,6 @@ FLOORS = {
 }
 
 STYLES = ("short", "medium", "full")
-N_EACH = 10
-N_SUB = 4
 LOG_LEVELS = ["debug", "extra", "info", "important", "prompt", "warning", "error", "header"]
 LOGGING_SETTINGS = ("verbosity", "branchVerbosity", "moduleVerbosity")
 STRUCTURED = ("crossSectionControl", "cycles", "tightCouplingSettings")
@@ -62,11 +60,12 @@ STRUCTURED = ("crossSectionControl", "cycles", "tightCouplingSettings")
 
 def plan(tier, seed):
     q = tier == "quick"
+    n_each, n_sub, per_sub = (11, 3, 80) if q else (16, 6, 1200)
     shards = [{"name": "defaults", "kind": "defaults"}]
-    for k in range(N_EACH):
-        shards.append({"name": "each-%d" % k, "kind": "each", "k": k, "of": N_EACH, "nrand": 6 if q else 250, "nstruct": 40 if q else 1500})
-    for k in range(N_SUB if q else 12):
-        shards.append({"name": "subsets-%d" % k, "kind": "subsets", "n": 60 if q else 600})
+    for k in range(n_each):
+        shards.append({"name": "each-%d" % k, "kind": "each", "k": k, "of": n_each, "nrand": 6 if q else 250, "nstruct": 40 if q else 1500})
+    for k in range(n_sub):
+        shards.append({"name": "subsets-%d" % k, "kind": "subsets", "n": per_sub})
     shards.append({"name": "flags", "kind": "flags", "n": 60 if q else 2500})
     return shards
 
@@ -1137,7 +1136,9 @@ def do_renames(ctx, rec, rng, spec):
                 rec.case(["rename", old, new, h], sample=wit if done == 1 else None)
                 continue
             got = canon(held(tgt, new))
-            if got != h:
+            if got != h and yaml_limit(ctx, src, [new], {new: lab}):
+                pass
+            elif got != h:
                 if _eq_default(held(tgt, new), s.default):
                     rec.violation("rename/old-name-ignored", "a settings file that uses the old name %r (renamed to %r) is read without error but the value %s is dropped: %s stays at its default %r%s"
                                   % (old, new, show(held(src, new)), new, s.default, "; the reader lists the old name as an invalid setting" if old in reader.invalidSettings else ""), wit)
